@@ -1459,6 +1459,10 @@ PPL::Polyhedron::add_generator(const Generator& g) {
         gen_sys.sys.rows.back().set_epsilon_coefficient(0);
         gen_sys.sys.rows.back().expr.normalize();
         PPL_ASSERT(gen_sys.sys.rows.back().OK());
+        if (!has_pending) {
+          // The row has been modified after its (sorted) insertion.
+          gen_sys.set_sorted(false);
+        }
         PPL_ASSERT(gen_sys.sys.OK());
         // Re-insert the point (which is already normalized).
         if (has_pending) {
